@@ -12,7 +12,7 @@ C04_RULES = {'GranulesNeverDecrease', 'GranuleIsSampleEnd', 'EosOnlyOnLastPacket
              'RoundTripCount', 'SamplesPerPacket', 'VorbisfileOpens', 'PcmTotalIsN', 'LinearReadDeliversN', 'WroteSucceeds', 'PacketDecodes',
              'HeadersAccepted', 'SynthesisInitSucceeds', 'HalfRateAccepted', 'AnalysisInitSucceedsAfterSetup', 'HeaderOutSucceeds',
              'NoCrash', 'CallsTerminate', 'LibraryNeverExits', 'UnknownEvent'}
-C05_RULES = {'AudioPacketParses', 'AudioPacketEndsInItsLastByte', 'AudioPacketSelectsWhatTheEncoderReports', 'IdHeaderParses', 'IdHeaderConveysInfo', 'SetupHeaderParses', 'SetupHeaderHasNoTrailingBytes', 'SetupHeaderWellFormed', 'AudioPacketHeaderValid', 'WindowFlagsAgree', 'PacketNumbersSequential', 'PacketNotEmpty', 'HeadersAccepted', 'HeaderConveysInfo',
+C05_RULES = {'DecoderConsumesWhatTheSpecificationDefines', 'AudioPacketParses', 'AudioPacketEndsInItsLastByte', 'AudioPacketSelectsWhatTheEncoderReports', 'IdHeaderParses', 'IdHeaderConveysInfo', 'SetupHeaderParses', 'SetupHeaderHasNoTrailingBytes', 'SetupHeaderWellFormed', 'AudioPacketHeaderValid', 'WindowFlagsAgree', 'PacketNumbersSequential', 'PacketNotEmpty', 'HeadersAccepted', 'HeaderConveysInfo',
              'IdHeaderMatchesInfo', 'PacketDecodes', 'ConsumedToLastByte', 'NeverRunsOutOfBits', 'TruncationOnlyUnderHardMax', 'PaddingOnlyUnderHardMin',
              'SynthesisInitSucceeds', 'HeaderOutSucceeds', 'NoRateManagerWhenSwitchedOff', 'AddBlockReturnsZero', 'ChoiceInRange', 'NoCrash', 'CallsTerminate', 'LibraryNeverExits', 'UnknownEvent'}
 
